@@ -26,7 +26,7 @@ RULE = ("string level: one case = one input string of one function; exhaustive w
         "random token soups, generated/mutated/unbalanced type strings, all prefixes of the fixed-offset tags; 9 naming rules x names and 8 variant rules x variant names. "
         "Non-trivial = the input contains a non-ASCII byte or a delimiter the function searches for. "
         "project level: one case = one source tree; generated exotic items, corpus files (plain, commandified, truncated, mutated), non-Rust text, "
-        "naming configuration (default_field_case / default_parameter_case: 8 convention names + unknown values) x hostile identifiers by tauri.conf.json, library config and BuildSystem, also at string level (default:<value> rules against the model default_case_b); project size 19..100 types/commands/events (dag, cyclic, chain; 70-field structs; one or many files) in both modes; every project stream crossed with the optional output-producing settings (verbose, visualize_deps, include_private, exclude patterns; by flag and by tauri.conf.json) and the three entry points (CLI, generate_from_config, BuildSystem), each in its own process; a multi-byte character swept over every byte offset 0..80 of type texts, names, literals and paths; recursive and mutually recursive serde type graphs (every digraph on 3 named types with rotating root sets and containers, random 4-7 node graphs, wide/deep acyclic graphs, long rings) in both modes with exit status / signal / time limit as oracle, bounded deep nesting; isolation = base project with and without unparsable (or non-UTF-8) files. distinct = distinct inputs")
+        "spellings of the project / output path (trailing and doubled slashes, ./, .. segments, relative / absolute) x top-level names starting with a non-ASCII character on the cache-using entry points (with --force, and twice without); string literals with escape-looking text after an escaped backslash beside real escapes (validator messages, rename values, event names; string level against the model and project level); naming configuration (default_field_case / default_parameter_case: 8 convention names + unknown values) x hostile identifiers by tauri.conf.json, library config and BuildSystem, also at string level (default:<value> rules against the model default_case_b); project size 19..100 types/commands/events (dag, cyclic, chain; 70-field structs; one or many files) in both modes; every project stream crossed with the optional output-producing settings (verbose, visualize_deps, include_private, exclude patterns; by flag and by tauri.conf.json) and the three entry points (CLI, generate_from_config, BuildSystem), each in its own process; a multi-byte character swept over every byte offset 0..80 of type texts, names, literals and paths; recursive and mutually recursive serde type graphs (every digraph on 3 named types with rotating root sets and containers, random 4-7 node graphs, wide/deep acyclic graphs, long rings) in both modes with exit status / signal / time limit as oracle, bounded deep nesting; isolation = base project with and without unparsable (or non-UTF-8) files. distinct = distinct inputs")
 TRUSTED = [
     "python transcription of Rust's str::parse::<u64>/<f64> grammar (value of min/max only; not needed for panic-freedom)",
     "the token string handed to the attribute scanners is computed by the harness exactly as the code computes it (MetaList.tokens.to_string())",
@@ -364,7 +364,7 @@ def typegen_conf(sb, mode, st, src, out):
         "verbose": bool(st.get("verbose")), "visualizeDeps": bool(st.get("visualize_deps")),
         "includePrivate": bool(st.get("include_private")), "excludePatterns": st.get("exclude") or [],
         "defaultFieldCase": st.get("field_case", "snake_case"), "defaultParameterCase": st.get("param_case", "camelCase"),
-        "force": True}}}, indent=1)
+        "force": not st.get("no_force")}}}, indent=1)
 
 
 def run_project(args):
@@ -380,12 +380,18 @@ def run_project(args):
     code = 0
     with vlib.Sandbox("c15") as sb:
         sb.write_files(files, under="proj/src")
+        # how the project / output path is SPELLED (trailing or doubled slashes, ./, .. segments, relative / absolute);
+        # the working directory of the CLI is proj/
+        sp = st.get("spelling")
+        src_arg = sp[0].format(abs=sb.path("proj/src"), rel="src", up="../proj/src") if sp else sb.path("proj/src")
+        out_arg = sp[1].format(abs=sb.path("out"), rel="gen", up="../proj/gen") if sp else sb.path("out")
+        force = [] if st.get("no_force") else ["--force"]
         if "cli" in entries:
             if st.get("via") == "conf":
-                sb.write("proj/tauri.conf.json", typegen_conf(sb, mode, st, sb.path("proj/src"), sb.path("out")))
-                cli = ["generate", "--force"]      # tauri.conf.json in the working directory is picked up
+                sb.write("proj/tauri.conf.json", typegen_conf(sb, mode, dict(st, no_force=st.get("no_force")), src_arg, out_arg))
+                cli = ["generate"] + force      # tauri.conf.json in the working directory is picked up
             else:
-                cli = ["generate", "-p", sb.path("proj/src"), "-o", sb.path("out"), "--force"]
+                cli = ["generate", "-p", src_arg, "-o", out_arg] + force
                 if mode == "zod":
                     cli += ["-v", "zod"]
                 if st.get("verbose"):
@@ -393,6 +399,12 @@ def run_project(args):
                 if st.get("visualize_deps"):
                     cli.append("--visualize-deps")
             code, out = sb.cli(cli, cwd=sb.path("proj"), timeout=60)
+            if st.get("no_force") and code == 0:
+                # a second run over the same tree takes the cache path (hash comparison instead of generation)
+                code2, out2 = sb.cli(cli, cwd=sb.path("proj"), timeout=60)
+                detail["exit_second_run"] = code2
+                if code2 not in (0, 1):
+                    code, out = code2, out2
             detail.update({"exit": code, "output": out[-1500:] if code not in (0, 1) else out[-300:]})
             ok = code in (0, 1)
         for entry in ("lib", "build"):
@@ -404,7 +416,8 @@ def run_project(args):
                         "include_private": st.get("include_private"), "exclude_patterns": st.get("exclude"),
                         "default_field_case": st.get("field_case"), "default_parameter_case": st.get("param_case")}
             else:
-                sb.write("proj/tauri.conf.json", typegen_conf(sb, mode, st, "./src", "./out-build"))
+                bsrc = sp[0].format(abs=sb.path("proj/src"), rel="src", up="../proj/src") if sp else "./src"
+                sb.write("proj/tauri.conf.json", typegen_conf(sb, mode, st, bsrc, "./out-build"))
                 case = {"entry": "build", "dir": sb.path("proj")}
             o = run_oneshot(sb, case, entry)
             detail[entry] = o.get("result", o)
@@ -533,6 +546,28 @@ def project_cases(rep, rng):
         for fc in ("camelCase", "PascalCase", "bogus", "SCREAMING-KEBAB-CASE"):
             add("naming-config-offset", src_files, ("zod", "none")[k % 2],
                 settings={"via": "conf", "field_case": fc, "param_case": fc, "entries": ["cli", "lib"]})
+    # SPELLINGS of the project / output path x top-level file and directory names starting with a non-ASCII
+    # character, on the cache-using entry points (CLI with and without --force, twice; BuildSystem)
+    spell = ["{abs}", "{abs}/", "{abs}//", "{rel}", "{rel}/", "./{rel}", "./{rel}/", "{rel}//", "{up}", "{up}/", ".//{rel}/./", "{abs}/."]
+    cmd_src = "#[tauri::command]\npub fn %s(x: u8) -> u8 { x }\n"
+    name_sets = [{"\u00e9t\u00e9.rs": cmd_src % "ete"}, {"donn\u00e9es/x.rs": cmd_src % "don", "lib.rs": cmd_src % "main_cmd"},
+                 {"\u00e9/\u4e2d.rs": cmd_src % "deep", "\U0001D4B3.rs": cmd_src % "four", "z.rs": cmd_src % "zed"},
+                 {"\u00e9.rs": BASE_PROJECT["lib.rs"]}]
+    ns = 0
+    for i, s_src in enumerate(spell):
+        for j, files_ in enumerate(name_sets):
+            s_out = spell[(i + j * 5) % len(spell)]
+            for no_force in (False, True):
+                via = ("flags", "conf")[(i + j + no_force) % 2]
+                ents = ["cli"] + (["build"] if (via == "conf" and not s_src.startswith("{up}")) else [])
+                add("path-spelling", files_, ("none", "zod")[ns % 2],
+                    settings={"via": via, "spelling": [s_src, s_out], "no_force": no_force, "entries": ents})
+                ns += 1
+    # literals with escape-looking text after an escaped backslash beside real escapes: validator message, rename
+    # value, event name; both modes; CLI and library
+    for i, body in enumerate(G.ESCAPE_BODIES):
+        add("escape-literals", {"lib.rs": G.escape_project(body, i)}, ("zod", "none")[i % 2], settings={"via": "flags", "verbose": i % 3 == 0, "entries": ["cli", "lib"]})
+        add("escape-literals", {"lib.rs": G.escape_project(body, i)}, ("none", "zod")[i % 2])
     # project SIZE: 19..100 types / commands / events with dependency edges in both alphabetical directions,
     # 70-field structs and 70-variant enums, one file or many; both modes, plain and with every setting on
     sizes = (19, 20, 21, 22, 24, 33, 40, 64, 65, 100) if quick else (8, 16, 19, 20, 21, 22, 23, 24, 32, 33, 40, 63, 64, 65, 100, 128, 257)
@@ -590,7 +625,8 @@ def isolation_filter(outs):
 # ------------------------------------------------------------------ corpus (replayed first, deterministic)
 
 CORPUS_ATTR = {
-    "validator": ['length(min = 1, message = "é")', 'range(max = 2, message = "ééé")', 'length(min = 1, message = "éa")',
+    "validator": [r'length(min = 1, message = "\\u{XXXX}")', r'length(min = 1, message = "\\u{110000}")', r'range(max = 1, message = "a\\u{D800}b\u{e9}")',
+                  'length(min = 1, message = "é")', 'range(max = 2, message = "ééé")', 'length(min = 1, message = "éa")',
                   'length(min = 1, message = "été")', 'length(message = "\U0001F600", min = 3)', "length(message = '　x', max = 7)",
                   'length(min = 1, max = 10, message = "bad (len) email")', 'range(min = -5, max = 1e3)', 'length(min = 1, message = "a\\"é")'],
     "serde": ['x = "rename　　_all"', 'x = "rename 　_all", rename = "v"', 'x = "rename　_all"', 'x = "rename  _all"',
@@ -623,6 +659,12 @@ CORPUS_SETTINGS = [
      {"via": "conf", "field_case": "camelCase", "param_case": "bogus", "entries": ["cli", "lib", "build"]}),
     ("regress-field-case-unknown", {"lib.rs": G.naming_config_source(["\u00e9cole", "__"])}, "zod",
      {"via": "conf", "field_case": "nope", "param_case": "PascalCase", "entries": ["cli", "lib"]}),
+    ("regress-trailing-slash-nonascii-file", {"\u00e9t\u00e9.rs": "#[tauri::command]\npub fn ete(x: u8) -> u8 { x }\n"}, "none",
+     {"via": "flags", "spelling": ["{rel}/", "{rel}"], "entries": ["cli"]}),
+    ("regress-trailing-slash-nonascii-dir", {"donn\u00e9es/x.rs": "#[tauri::command]\npub fn don(x: u8) -> u8 { x }\n"}, "zod",
+     {"via": "conf", "spelling": ["./{rel}/", "{rel}/"], "no_force": True, "entries": ["cli", "build"]}),
+    ("regress-escaped-backslash-u", {"lib.rs": G.escape_project(G.ESCAPE_BODIES[1], 1)}, "zod", {"via": "flags", "entries": ["cli", "lib"]}),
+    ("regress-escaped-backslash-u", {"lib.rs": G.escape_project(G.ESCAPE_BODIES[0], 0)}, "none", {"via": "flags", "entries": ["cli", "lib"]}),
     ("regress-verbose-offset-44", G.offset_sources(80)[44 * 3][2], "none", dict(ALL_ON, via="flags", entries=["cli", "lib"])),
     ("regress-verbose-offset-43", G.offset_sources(80)[43 * 3 + 1][2], "zod", dict(ALL_ON, via="conf", entries=["cli", "lib", "build"])),
 ]
